@@ -335,7 +335,11 @@ func TestRegistryRaces(t *testing.T) {
 		cp := rapid.SampledFrom(canonPaths).Draw(t, "path")
 		sp := func() string { return rapid.SampledFrom(spellings[cp]).Draw(t, "spelling") }
 		withOld := rapid.Bool().Draw(t, "existingStream")
-		kind := rapid.SampledFrom([]string{"regist-in-regist", "regist-in-unregist", "unregist-in-regist"}).Draw(t, "race")
+		// the last five are three-party races: a lookup (GetOrCreate, as every player's
+		// request makes it) runs inside the window of a registration that itself runs
+		// inside the window of an ending stream (after seeded change C05-R6B)
+		kind := rapid.SampledFrom([]string{"regist-in-regist", "regist-in-unregist", "unregist-in-regist",
+			"regist-in-close", "lookup-in-regist-in-close", "lookup-in-regist-in-unregist", "lookup-in-regist", "lookup-in-close"}).Draw(t, "race")
 		var hist []op
 		var all []*media.Stream
 		mk := func() *media.Stream { s := newStream(sp(), false, false); all = append(all, s); return s }
@@ -349,10 +353,17 @@ func TestRegistryRaces(t *testing.T) {
 		switch kind {
 		case "regist-in-regist":
 			a, b = mk(), mk()
-		case "regist-in-unregist":
+		case "regist-in-unregist", "regist-in-close", "lookup-in-regist-in-close", "lookup-in-regist-in-unregist":
 			b = mk()
+		case "lookup-in-close":
 		default:
 			a = mk()
+		}
+		lookups := 0
+		lookupPath := sp() // drawn here: the lookup itself runs on a helper goroutine
+		lookup := func() { lookups++; media.GetOrCreate(lookupPath) }
+		is := func(s *media.Stream) func(o interface{}) bool {
+			return func(o interface{}) bool { return o == interface{}(s) }
 		}
 		in := sched.New(15 * time.Millisecond)
 		ran := 0
@@ -372,6 +383,37 @@ func TestRegistryRaces(t *testing.T) {
 			media.VerifSetSched(in.Hook)
 			hist = append(hist, op{Op: "Regist(A)", Window: "regist.loaded: Unregist(old)"})
 			media.Regist(a)
+		case "regist-in-close", "lookup-in-regist-in-close":
+			in.Add(&sched.Directive{Point: "close.marked", Occ: 1, Filter: is(old), Do: func() { ran++; media.Regist(b) }})
+			w := "close.marked: Regist(B)"
+			if kind == "lookup-in-regist-in-close" {
+				in.Add(&sched.Directive{Point: "regist.loaded", Occ: 1, Filter: is(b), Do: lookup})
+				w += " [regist.loaded: GetOrCreate]"
+			}
+			media.VerifSetSched(in.Hook)
+			how := rapid.SampledFrom([]string{"Close", "idle close"}).Draw(t, "endedBy")
+			hist = append(hist, op{Op: how + "(old)", Window: w})
+			if how == "Close" {
+				old.Close()
+			} else {
+				media.VerifIdleCloseTick(old, time.Nanosecond, media.StreamNoConsumer)
+			}
+		case "lookup-in-regist-in-unregist":
+			in.Add(&sched.Directive{Point: "unregist.loaded", Occ: 1, Filter: is(old), Do: func() { ran++; media.Regist(b) }})
+			in.Add(&sched.Directive{Point: "regist.loaded", Occ: 1, Filter: is(b), Do: lookup})
+			media.VerifSetSched(in.Hook)
+			hist = append(hist, op{Op: "Unregist(old)", Window: "unregist.loaded: Regist(B) [regist.loaded: GetOrCreate]"})
+			media.Unregist(old)
+		case "lookup-in-regist":
+			in.Add(&sched.Directive{Point: "regist.loaded", Occ: 1, Filter: is(a), Do: func() { ran++; lookup() }})
+			media.VerifSetSched(in.Hook)
+			hist = append(hist, op{Op: "Regist(A)", Window: "regist.loaded: GetOrCreate"})
+			media.Regist(a)
+		case "lookup-in-close":
+			in.Add(&sched.Directive{Point: "close.marked", Occ: 1, Filter: is(old), Do: func() { ran++; lookup() }})
+			media.VerifSetSched(in.Hook)
+			hist = append(hist, op{Op: "Close(old)", Window: "close.marked: GetOrCreate"})
+			old.Close()
 		}
 		if !in.Wait(10 * time.Second) {
 			evid.Violation(t, "race-stuck", hist, "an operation started inside a window never finished")
@@ -399,6 +441,18 @@ func TestRegistryRaces(t *testing.T) {
 		case "unregist-in-regist":
 			if got != a {
 				evid.Violation(t, "successor-removed", hist, "Regist(new) racing Unregist(old): the path does not resolve to the new stream (nil=%v)", got == nil)
+			}
+		case "regist-in-close", "lookup-in-regist-in-close", "lookup-in-regist-in-unregist":
+			if got != b {
+				evid.Violation(t, "successor-removed", hist, "%s: the successor registered while the old stream was ending (lookups inside: %d) is not what the path resolves to (nil=%v, successor status %d)", kind, lookups, got == nil, media.VerifStatus(b))
+			}
+		case "lookup-in-regist":
+			if got != a {
+				evid.Violation(t, "successor-removed", hist, "a lookup inside Regist(A): the path does not resolve to A afterwards (nil=%v)", got == nil)
+			}
+		case "lookup-in-close":
+			if got != nil {
+				evid.Violation(t, "closed-still-registered", hist, "a lookup inside Close(old): the path still resolves to a stream afterwards (status %d)", media.VerifStatus(got))
 			}
 		}
 		if live > 1 {
